@@ -232,17 +232,26 @@ def run(ctx):
     # histories: same program twice on one object, interleaved with others
     hist = []
     ok_idx = [i for i, ans in zip(idx, po) if ans.startswith("OK")]
-    for _ in range(min(len(ok_idx) // 3, 600 if ctx.tier == "thorough" else 100)):
+
+    def ren(x):
+        # the same label names in every program of a history (L12_3 -> LL_3): a value remembered under a name is then wrong for the next program
+        return sources[x].replace(f"L{x}_", "LL_")
+    for n in range(min(len(ok_idx) // 3, 600 if ctx.tier == "thorough" else 120)):
         a, b, c = (rng.choice(ok_idx) for _ in range(3))
-        hist.append(((a, b, c), " ".join(sources[x].encode().hex() for x in (a, b, a, c, a))))
+        srcs = [ren(x) if n % 2 else sources[x] for x in (a, b, a, c, a)]
+        hist.append((srcs, " ".join(t.encode().hex() for t in srcs)))
     ho = corr.run_streams(ctx, [h for _, h in hist], {"py": ("py", "asm_seq")})["py"] if hist else []
-    fresh = dict(zip(idx, po))
-    for ((a, b, c), _), ans in zip(hist, ho):
+    uniq = sorted({t for srcs, _ in hist for t in srcs})
+    fo = corr.run_streams(ctx, [t.encode().hex() for t in uniq], {"py": ("py", "asm")})["py"] if uniq else []
+    fresh = dict(zip(uniq, fo))
+    for (srcs, _), ans in zip(hist, ho):
         ctx.evaluations += 1
         parts = ans.split(" || ")
-        exp = [fresh[a], fresh[b], fresh[a], fresh[c], fresh[a]]
+        exp = [fresh[t] for t in srcs]
         if parts != exp:
             k = next(j for j in range(len(exp)) if j >= len(parts) or parts[j] != exp[j])
-            ctx.report(["py", "assembly_depends_on_earlier_calls"], f"call {k + 1} of a sequence on one Assembler differs from assembling the same source on a fresh one", {"sources": [sources[x] for x in (a, b, a, c, a)], "got": parts[k][:300] if k < len(parts) else None, "fresh": exp[k][:300]})
+            ctx.report(["py", "assembly_depends_on_earlier_calls"], f"call {k + 1} of a sequence on one Assembler differs from assembling the same source on a fresh one", {"sources": srcs, "got": parts[k][:300] if k < len(parts) else None, "fresh": exp[k][:300]})
+        else:
+            ctx.nontrivial.add("hist:" + srcs[0] + srcs[1])
     ctx.count("history_cases", len(hist))
     ctx.samples = [{"source": sources[idx[0]] if idx else "", "python": po[0][:300] if po else "", "model": mo[idx[0]][:300] if idx else ""}]
